@@ -71,6 +71,7 @@ Fresh(cfg) ==
      misuse |-> FALSE, \* compute() was started although the previous call threw and left no valid
                        \* factorization behind (outside the domain of every property: the caller was told)
      inited |-> FALSE, \* a successful init() has completed and no fault hit the object since
+     ncomp |-> 0,      \* compute() calls started since the last init()
      calls |-> 0,
      exc |-> "none"]   \* exception delivered to the caller by the last call: none | invalid | fault
 
@@ -91,7 +92,7 @@ G_InitBegin(st) == st.pc = "idle"
 U_InitBegin(st) ==
     [st EXCEPT !.pc = "init", !.ops = 0, !.niter = 0, !.flags = 0, !.trueOps = 0, !.ops0 = 0,
                !.ritzGen = 0, !.convGen = 0, !.calls = st.calls + 1, !.exc = "none",
-               !.facpre = st.facOK, !.facOK = FALSE, !.inited = FALSE, !.misuse = FALSE]
+               !.facpre = st.facOK, !.facOK = FALSE, !.inited = FALSE, !.misuse = FALSE, !.ncomp = 0]
 
 \* Arnoldi::init rejects a zero vector before it touches m_k (H, V, f are already resized)
 G_InitThrowZero(st) == st.pc = "init"
@@ -110,7 +111,7 @@ U_InitEnd(st, o) == [st EXCEPT !.pc = "idle", !.inited = TRUE]
 G_ComputeBegin(st, mx) == st.pc = "idle"
 U_ComputeBegin(st, mx) ==
     [st EXCEPT !.pc = "c_fac", !.maxit = mx, !.restarts = 0, !.nconv = 0, !.spos = 0,
-               !.calls = st.calls + 1, !.exc = "none", !.ops0 = st.trueOps,
+               !.calls = st.calls + 1, !.exc = "none", !.ops0 = st.trueOps, !.ncomp = st.ncomp + 1,
                !.misuse = (st.misuse \/ (st.exc # "none" /\ ~st.facOK)),
                !.ktarget = IF V_Resume THEN Max(1, st.k) ELSE 1]
 
@@ -248,6 +249,9 @@ SortEnd == G_SortEnd(s) /\ s' = U_SortEnd(s)
 ComputeEnd == LET r == Min(s.nev, s.nconv) ni == s.niter + s.restarts + 1 IN
                   G_ComputeEnd(s, r, InfoOf(s), ni, s.ops) /\ s' = U_ComputeEnd(s, r, InfoOf(s), ni, s.ops)
 OpThrows == V_Faults /\ G_OpThrows(s) /\ s' = U_OpThrows(s)
+\* compute() called with a selection / sorting rule the solver does not support
+RetrieveThrow == V_Faults /\ G_RetrieveThrow(s) /\ s' = U_RetrieveThrow(s)
+SortThrow == V_Faults /\ G_SortThrow(s) /\ s' = U_SortThrow(s)
 \* init(0): only when nothing else of init has run
 InitZero == G_InitThrowZero(s) /\ ~s.facOK /\ s' = U_InitThrowZero(s)
 
@@ -255,7 +259,7 @@ SolverStep ==
     \/ InitZero \/ FacInit \/ InitEnd
     \/ FacNoop \/ FacThrow \/ FacBegin \/ FacStep \/ FacDone \/ Retrieve \/ RestartEnd
     \/ NumConv \/ SkipRefresh \/ NevAdj \/ RestartBegin \/ ShiftStep \/ CompressV
-    \/ SortBegin \/ SortEnd \/ ComputeEnd \/ OpThrows
+    \/ SortBegin \/ SortEnd \/ ComputeEnd \/ OpThrows \/ RetrieveThrow \/ SortThrow
 
 UserStep == s.calls < MaxCalls /\ (InitBegin \/ ComputeBegin)
 
@@ -290,7 +294,7 @@ P_KInRange(st) == (st.pc \notin {"idle", "init"} /\ st.facOK) => (st.k >= 1 /\ s
 P_ShiftInRange(st) == st.pc = "c_shift" => (st.spos >= 1 /\ st.spos <= st.ncv /\ st.k >= st.ktarget /\ st.k >= 1)
 \* C06/C14: a successful init() leaves exactly the state a fresh object has after init()
 P_InitMakesFresh(st) ==
-    (st.pc = "idle" /\ st.inited /\ st.ritzGen = 0) =>
+    (st.pc = "idle" /\ st.inited /\ st.ncomp = 0) =>
         (st.k = 1 /\ st.ops = 2 /\ st.niter = 0 /\ st.flags = 0 /\ st.trueOps = 2 /\ st.facOK /\ st.fnext = 0)
 \* a compute() that follows a successful init() never hits the from_k guard
 P_NoFacThrowAfterInit(st) == (st.pc = "c_fac" /\ st.inited) => st.ktarget <= st.k
